@@ -95,6 +95,12 @@ Theorem C03_okb_lcs_spec : forall input res panicked,
   /\ (input <> [] -> res <> []).
 Proof. exact okb_lcs_spec. Qed.
 
+(** The correspondence check computes each first-step matching once and looks it up again
+    while assembling the hunks; the lookup function is [M_hist]. *)
+Theorem C03_memo_correct : forall bw ows a b,
+  M_memo (map (fun om => (bw, fst om, snd om)) (combine ows (map (M_hist bw) ows))) a b = M_hist a b.
+Proof. intros bw ows. apply M_memo_correct. apply memo_table_ok. Qed.
+
 (** The model's hunks pass that checker. *)
 Theorem C03_model_passes_checker : forall M,
   (forall a b, valid_matching (length a) (length b) (M a b)) ->
